@@ -5,7 +5,7 @@ import re
 from ..fn import World
 from ..index import AnalysisError, dotted, REPO
 from ..astutil import text, short, endswith, calls_in, walk_no_nested
-from ._h_F import (Res, res_of, atoms, canon, is_none, isinstance_atom, call_arg, absent,
+from ._h_F import (ifn, Res, res_of, atoms, canon, is_none, isinstance_atom, call_arg, absent,
                    iterations)
 
 EXPLANATION = (
@@ -104,8 +104,8 @@ def _fenced(fn):
 def r1_alphabet(run, w):
   R1 = run.rule("C24-R1", "object codes: emitted by encode_object <= accepted by decode_object <= "
                 "GristObjCode (app/plugin/GristData.ts)", floor=10)
-  enc = w.fn("objtypes.encode_object")
-  dec = w.fn("objtypes.decode_object")
+  enc = ifn(w, "objtypes.encode_object")
+  dec = ifn(w, "objtypes.decode_object")
   emitted = _codes_emitted(res_of(w, enc))
   accepted = _codes_accepted(res_of(w, dec), dec.fi.params()[0])
   ts = _ts_enum(os.path.join(w.repo.root, "app", "plugin", "GristData.ts"), "GristObjCode")
@@ -164,7 +164,7 @@ def _exact_test(a, subject, res=None, node=None, allowed=PRIM_EXACT):
 def r2_marshal_safety(run, w):
   R2 = run.rule("C24-R2", "every leaf of every value returned by encode_object is an exact "
                 "primitive, a recursive result or a named trusted field", floor=20)
-  fn = w.fn("objtypes.encode_object")
+  fn = ifn(w, "objtypes.encode_object")
   r = res_of(w, fn)
   vp = fn.fi.params()[0]
   trusted = {k.replace("value", vp) if vp != "value" else k for k in TRUSTED}
@@ -290,7 +290,7 @@ def r2_marshal_safety(run, w):
                  "exception field sent to Node is an exact str or None", ok, fi=m, node=st)
   # RecordSet._get_encodable_row_ids returns an exact list/tuple: the stored row ids only under an
   # exact-type test, otherwise rebuilt with list()/tuple()
-  ge = w.fn("records.RecordSet._get_encodable_row_ids")
+  ge = ifn(w, "records.RecordSet._get_encodable_row_ids")
   gr = res_of(w, ge)
   for (n, v) in gr.returns():
     for (facts, leaf) in Res.cases(v):
@@ -302,7 +302,7 @@ def r2_marshal_safety(run, w):
                            isinstance(a.comparators[0], ast.Constant)), True, facts)
       run.ob(R2, ge.qualname, "return " + short(leaf), "row ids leave as an exact list/tuple (a "
              "list subclass such as RecordList is not marshallable)", ok, fi=ge.fi, node=n.stmt)
-  ea = w.fn("objtypes.RaisedException.encode_args")
+  ea = ifn(w, "objtypes.RaisedException.encode_args")
   ok = any(isinstance(n, ast.Dict) and [text(k) for k in n.keys] == ["'u'"] and
            isinstance(n.values[0], ast.Call) and dotted(n.values[0].func) == "encode_object"
            for n in ast.walk(ea.node))
@@ -317,7 +317,7 @@ def _names(target):
 def r4_exception_roundtrip(run, w):
   R4 = run.rule("C24-R4", "RaisedException args: the decoder restores the remembered user input "
                 "by key presence (None is a value), mirroring the encoder", floor=2)
-  ea = w.fn("objtypes.RaisedException.encode_args")
+  ea = ifn(w, "objtypes.RaisedException.encode_args")
   r = res_of(w, ea)
   # encoder: the slot is {"u": ...} exactly when has_user_input(), None otherwise
   def has_input(a, node):
@@ -348,7 +348,7 @@ def r4_exception_roundtrip(run, w):
     ok = absent(w, ea, "the {'u': ...} slot of the encoded argument list")
   run.ob(R4, ea.qualname, "user_input = {'u': encode_object(...)} if self.has_user_input() else None",
          "the 'u' key is present exactly when an input was remembered", ok, fi=ea.fi)
-  hu = w.fn("objtypes.RaisedException.has_user_input")
+  hu = ifn(w, "objtypes.RaisedException.has_user_input")
   e = res_of(w, hu).result_expr()
   ok = False
   if e is not None:
@@ -359,7 +359,7 @@ def r4_exception_roundtrip(run, w):
         {"self.user_input", "self.NO_INPUT"}
   run.ob(R4, hu.qualname, "user_input is not NO_INPUT", "absence of input is the NO_INPUT "
          "sentinel, not None", ok, fi=hu.fi)
-  da = w.fn("objtypes.RaisedException.decode_args")
+  da = ifn(w, "objtypes.RaisedException.decode_args")
   dr = res_of(w, da)
   cfg = da.cfg
   sets = [n for n in cfg.nodes if n.kind == "stmt" and isinstance(n.stmt, ast.Assign) and
@@ -419,11 +419,11 @@ def _exact_str(r, n, v, depth=0):
 def r3_reply_paths(run, w):
   R3 = run.rule("C24-R3", "actions in replies pass through get_action_repr; action values are "
                 "encoded and decoded through the same recursive walker", floor=8)
-  ga = w.fn("actions.get_action_repr")
+  ga = ifn(w, "actions.get_action_repr")
   ok = any(endswith(ga.name(c), "encode_objects") for c in calls_in(ga.node))
   run.ob(R3, ga.qualname, "list(encode_objects(action_obj))", "get_action_repr encodes every "
          "cell value", ok, fi=ga.fi)
-  eo, do = w.fn("actions.encode_objects"), w.fn("actions.decode_objects")
+  eo, do = ifn(w, "actions.encode_objects"), ifn(w, "actions.decode_objects")
   er, dr = res_of(w, eo), res_of(w, do)
   def walker_arg(fn, r):
     out = []
@@ -438,7 +438,7 @@ def r3_reply_paths(run, w):
   run.ob(R3, eo.qualname, "encode/decode share convert_recursive_in_action",
          "the same positions of an action are encoded on the way out and decoded on the way in",
          ok, fi=eo.fi)
-  ar = w.fn("actions.action_from_repr")
+  ar = ifn(w, "actions.action_from_repr")
   ok = any(endswith(ar.name(c), "decode_objects") for c in calls_in(ar.node))
   run.ob(R3, ar.qualname, "decode_objects(action_type(*doc_action[1:]))", "incoming actions are "
          "decoded", ok, fi=ar.fi)
@@ -465,7 +465,7 @@ def r3_reply_paths(run, w):
         not res_of(w, fn).falls_off_end()
     run.ob(R3, q, "return ... actions.get_action_repr(...)", "table data returned to Node is "
            "encoded", ok, fi=fn.fi)
-  fe = w.fn("main.run.get_formula_error")
+  fe = ifn(w, "main.run.get_formula_error")
   rets = res_of(w, fe).returns()
   ok = bool(rets) and all(isinstance(leaf, ast.Call) and
                           endswith(dotted(leaf.func), "encode_object")
